@@ -48,6 +48,7 @@ class Profile:
     allow_all: bool = True  # well-behaved clients may subscribe to ALL_MESSAGE_TYPES
     allow_dynamic: bool = True
     max_hostile: int = 6
+    zero_source: bool = False  # connected modules sometimes publish with source id 0 (payloads >= 8 bytes only)
     preconnect_subs: int = 8  # 1 in N subscription requests comes from a connection that has not sent CONNECT yet (0 = never)
 
     def codes(self):
@@ -202,6 +203,8 @@ def resolve(w: World, raw, pf: Profile) -> Optional[dict]:
             # the largest sizes at low weight
             size = szpool[e % len(szpool)] if (e // 16) % 4 == 0 else szpool[e % min(5, len(szpool))]
             src = m.mod_id if m.connected else m.h_id
+            if pf.zero_source and m.connected and size >= 8 and t not in World.MGR_TYPES and (e // 1024) % 6 == 0:
+                src = 0  # the source id is a header field like any other: a connected module may leave it 0
             op = {"op": "pub", "c": m.idx, "type": t, "dm": dm, "dh": dh, "size": size, "src": src}
             if (e // 64) % 4 == 0:
                 # the frame reaches the manager in two pieces (only the first has arrived when it is served)
